@@ -134,6 +134,11 @@ def postprocess_attributes(
     if retain_names is None:
         retain_names = numpoly.get_options()["retain_names"]
     if not retain_names:
+        if names is None:
+            # default names are given by position: fix them before any
+            # exponent column is removed
+            varname = numpoly.get_options()["default_varname"]
+            names = tuple(f"{varname}{idx}" for idx in range(exponents.shape[1]))
         exponents, names = remove_redundant_names(exponents, names)
 
     exponents_, count = numpy.unique(exponents, return_counts=True, axis=0)
